@@ -21,6 +21,7 @@ receives the current value of S; (R3) bounded take in GET: Some(0) returns an em
 queues, the drain predicate returns true only while taken < count and increments `taken` by exactly 1 per taken
 entry; (R4) each loop turn awaits ONE completion (StreamExt::next of the in-flight set), so slots are refilled
 after each completion rather than after all.  The invariant payload + in_flight = k follows from these premises.
+Added after the second seeded round: (R5) the hand-written Basic::clone fills every field (the limit included) from the like-named field.
 """
 DECLINED = ["user code of a scenario running outside its Started/Finished bracket (covered by C02 ordering rules)"]
 ASSUMPTIONS = ["FuturesUnordered::next yields exactly one completed element per Ready(Some)"]
